@@ -156,7 +156,9 @@ class CorrelationFunction(DFunction, UnitsManaged):
                 #
                 # loop over parameter sets
                 #
-                for prms in self.params:
+                for prms, params in zip(self.params, p2calc):
+                    # type (and raw parameters) of THIS component
+                    ftype = prms["ftype"]
                     
 #                    try:
 #                        ftype = params["ftype"]
